@@ -30,7 +30,7 @@ ASSUMPTIONS = [
 @st.composite
 def cases(draw, tier):
     cls = draw(st.sampled_from(["H", "H", "DH", "SC"]))
-    spec = draw(nets.net_spec(wide_labels=True, cls=cls, max_edges=6, allow_empty=(cls != "SC" and draw(st.integers(0, 2)) == 0), nested=True))
+    spec = draw(nets.net_spec(wide_labels=True, cls=cls, max_edges=6, allow_empty=(cls != "SC" and draw(st.integers(0, 2)) == 0), nested=True, float_ids=True))
     return {"spec": spec, "keys": draw(st.lists(st.integers(0, 10**6), min_size=8, max_size=8)), "awkward": draw(st.integers(0, 3)) == 0}
 
 
@@ -96,6 +96,18 @@ def run_case(case, ctx):
     if ok:
         d = full_diff(full(R), full(H))
         ctx.check(not d, ("roundtrip", "hif_dict", "+".join(d), cls), lambda: "got %r expected %r" % (full(R), full(H)))
+    # the same dict object read twice: the reader must not change what it is given, and the second network equals the first
+    ok, hd = attempt(ctx, "to_hif_dict", lambda: xgi.to_hif_dict(H))
+    if ok:
+        import copy as _copy
+
+        hd0 = _copy.deepcopy(hd)
+        ok, _ = attempt(ctx, "hif_dict-first-read", lambda: xgi.from_hif_dict(hd))
+        ctx.check(hd == hd0, ("roundtrip", "hif_dict", "reader-changed-its-input"), lambda: "before %r after %r" % (hd0, hd))
+        ok, R2 = attempt(ctx, "hif_dict-second-read", lambda: xgi.from_hif_dict(hd))
+        if ok:
+            d = full_diff(full(R2), full(H))
+            ctx.check(not d, ("roundtrip", "hif_dict", "second-read-of-the-same-dict", "+".join(d), cls), lambda: "got %r expected %r" % (full(R2), full(H)))
 
     # the documented casts of the HIF reader: str() of every label
     ok, R = attempt(ctx, "hif_dict-str-casts", lambda: xgi.from_hif_dict(xgi.to_hif_dict(H), nodetype=str, edgetype=str))
